@@ -6,7 +6,7 @@ silently.
 import ast
 
 from .. import AnalysisError, flow
-from ..srcmodel import walk_local, norm, dotted, guards, enclosing_stmt, parent
+from ..srcmodel import walk_local, norm, dotted, guards, enclosing_stmt, parent, literals
 from . import common, forward
 
 META = {
@@ -63,6 +63,25 @@ def _instance_check_first(ctx):
     if first_unique is None:
         ctx.undecided('ORDER', construct, 'no `unique` bookkeeping found')
         return
+    # ... and the element is REGISTERED (unique.add) unconditionally before any path can `continue`
+    reg = [i for i, st in enumerate(body) if isinstance(st, ast.Expr) and isinstance(st.value, ast.Call)
+           and norm(st.value.func) == 'unique.add' and st.value.args and norm(st.value.args[0]) == norm(loops[0].target).split(', ')[-1].strip('()')]
+    def _unregistered_continue(st):
+        # a `continue` taken only when the element is already in `unique` loses nothing
+        for x in ast.walk(st):
+            if isinstance(x, ast.Continue):
+                lits = [(t_, p_) for _e, t_, p_ in literals(guards(x, stop=loops[0]))]
+                if not any(t_.endswith(' in unique') and p_ for t_, p_ in lits):
+                    return True
+        return False
+    first_cont = next((i for i, st in enumerate(body) if _unregistered_continue(st)), None)
+    if first_cont is not None:
+        ctx.check(bool(reg) and reg[0] < first_cont, 'ORDER',
+                  'filter_duplicates registers every element as seen before any `continue`',
+                  detail_bad="`unique.add(element)` is not an unconditional statement ahead of the first `continue`: elements that "
+                             "leave the loop body early (unparsed Tracts under method='lots_qqs') are never registered, so a later "
+                             "occurrence of the same instance is not recognised as a duplicate",
+                  key="ORDER|filter_duplicates|register-before-continue", where=common.loc(fi, body[first_cont]))
     early = [st for st in body[:first_unique] if any(isinstance(x, ast.Continue) for x in ast.walk(st))]
     ctx.check(not early, 'ORDER', construct, 'no `continue` before the bookkeeping',
               f"`{norm(early[0])[:70] if early else ''}` skips an element before it is compared with the instances already seen: "
